@@ -91,8 +91,8 @@ constexpr auto log_check(T const x) noexcept -> T
                   // x < 0
             x < T(0) ? etl::numeric_limits<T>::quiet_NaN()
                      :
-                     // x ~= 0
-            etl::numeric_limits<T>::epsilon() > x ? -etl::numeric_limits<T>::infinity()
+                     // x == 0 (small positive arguments are ordinary arguments: log(1e-8) = -18.4)
+            T(0) == x ? -etl::numeric_limits<T>::infinity()
                                                   :
                                                   // indistinguishable from 1
             etl::numeric_limits<T>::epsilon() > abs(x - T(1)) ? T(0)
